@@ -174,7 +174,13 @@ func Check(id string, o *CheckOpts) int {
 			for _, m := range rep.Inconclusive {
 				inconclusive = append(inconclusive, fn.Name()+": "+m)
 			}
+			perLabel := map[string]int{}
 			for _, f := range res.Findings {
+				key := f.Label + "|" + f.KF + "|" + f.Kind
+				perLabel[key]++
+				if perLabel[key] > 2 {
+					continue
+				}
 				replays = append(replays, &replayCase{entry: fn.Name(), f: f, skip: stubbed && h.NoReplayStubbed})
 			}
 			for f := range res.Functions {
@@ -275,6 +281,11 @@ func Check(id string, o *CheckOpts) int {
 	}
 	if len(samples) == 0 {
 		samples = append(samples, "no witness")
+	}
+	for _, n := range nl {
+		if strings.HasPrefix(n, "init: skipped") && strings.Contains(n, "google.golang.org/grpc") {
+			fmt.Printf("NOTE %s\n", n)
+		}
 	}
 	var q, qs, qu, qk int
 	solver := map[string]float64{}
